@@ -783,6 +783,14 @@ class Interp:
             callee = self.repo.all_functions.get(env[f.id].qualname)
         if callee is None:
             callee = resolve_call(self.repo, fi, e)
+        if callee is None and isinstance(f, ast.Name):
+            # a local alias of a function of the package: g = Cls.helper; g(..)
+            defs_ = [s_ for s_ in own_nodes(fi.node) if isinstance(s_, ast.Assign) and len(s_.targets) == 1 and isinstance(s_.targets[0], ast.Name) and s_.targets[0].id == f.id]
+            if len(defs_) == 1 and isinstance(defs_[0].value, (ast.Name, ast.Attribute)):
+                fake = ast.Call(func=defs_[0].value, args=e.args, keywords=e.keywords)
+                ast.copy_location(fake, e)
+                fake._parent = getattr(e, "_parent", None)
+                callee = resolve_call(self.repo, fi, fake)
         if callee is not None and callee.name != "__init__":
             return self.call_function(callee, e, fi, env, recv)
         return Opaque(True, name)
